@@ -103,9 +103,9 @@ pub fn spec() -> CheckSpec {
         level: "exploration",
         rule: "C01/C02 worlds with heavy duplication: every event that already took effect at a client (stored message, applied or superseded commit, queued proposal, own echo) is handed over again 1..n times at arbitrary later points (later epochs, after rollback, after eviction, after restart, in the quiescence passes); the restricted fingerprint (epoch, authenticator, members, group data, pending proposals/commit, messages incl. state) must not change; non-trivial = a re-delivery separated from the first delivery by an epoch change, rollback or restart; distinct = delivery signature",
         variants: vec![
-            Variant { name: "mem", profile: Profile { backend: BackendMix::Memory, ..base.clone() }, runs_quick: 300, runs_thorough: 15000, oracle: mk, guarded: false, configure_gen: Some(heavy_dup), post: None },
-            Variant { name: "mixed-restart", profile: Profile { backend: BackendMix::Mixed, allow_restart: true, ..base.clone() }, runs_quick: 100, runs_thorough: 5000, oracle: mk, guarded: false, configure_gen: Some(heavy_dup), post: None },
-            Variant { name: "mem-guarded", profile: Profile { backend: BackendMix::Memory, guards: guards.clone(), allow_immediate: false, ..base.clone() }, runs_quick: 300, runs_thorough: 15000, oracle: mk, guarded: true, configure_gen: Some(heavy_dup), post: None },
+            Variant { name: "mem", profile: Profile { backend: BackendMix::Memory, ..base.clone() }, runs_quick: 300, runs_thorough: 15000, oracle: mk, guarded: false, configure_gen: Some(heavy_dup), post: None, custom: None },
+            Variant { name: "mixed-restart", profile: Profile { backend: BackendMix::Mixed, allow_restart: true, ..base.clone() }, runs_quick: 100, runs_thorough: 5000, oracle: mk, guarded: false, configure_gen: Some(heavy_dup), post: None, custom: None },
+            Variant { name: "mem-guarded", profile: Profile { backend: BackendMix::Memory, guards: guards.clone(), allow_immediate: false, ..base.clone() }, runs_quick: 300, runs_thorough: 15000, oracle: mk, guarded: true, configure_gen: Some(heavy_dup), post: None, custom: None },
         ],
         assumptions: vec!["honest members only", "dedup-record internals (processed_messages rows) are not part of the compared state"],
         real: super::REAL.to_vec(),
